@@ -1,1 +1,104 @@
-/-! C15 - property theorems (declared with their full name `C15.<name>`; helper lemmas go to Lemmas/) -/
+import CohdlVerif.Lemmas.C15Lemmas
+
+/-!
+  C15 - property theorems: `std.SyncFlag` / `std.Mailbox` hand over every event exactly once.
+
+  Model: `CohdlVerif.C15` (Model/C15.lean): the toggle registers `_set_tx .. _tx` (tx_delay + 1 of them, shifted
+  by the CONSUMER context) and `_set_rx .. _rx` (rx_delay + 1, shifted by the PRODUCER context), `set`, `clear`,
+  the three context-dependent views of `is_set`, `Mailbox.send` / `receive`, a nondeterministic producer and
+  consumer, and ASYNCHRONOUS INTERLEAVING: every step ticks the producer context, the consumer context, both
+  or none (`In.tp`, `In.tc`) - two clock domains with an arbitrary, varying rate ratio.  Analog metastability
+  is not modelled.  Specification = the log `sent` of accepted sends (issued while the producer observed the
+  flag clear) and the log `rcvd` of payloads taken by the consumer.
+
+  All theorems hold for ALL delays (`txd`, `rxd` arbitrary), ALL schedules (`ins : List In` arbitrary: any
+  interleaving, any attempts - also attempts while the flag is set -, any willingness) and both producer
+  styles (`g`: attempt guarded by `if is_clear()` or not).  The invariant (`Reach`, Lemmas/C15Lemmas.lean):
+  the two delay lines together contain at most one toggle edge, and its position determines who sees the
+  flag set and how the two logs differ.
+-/
+open CohdlVerif.C15
+
+/-- the invariant holds initially and is preserved by every step: every state reachable under any schedule
+    has one of the four shapes of `Reach` -/
+theorem C15.reachable_shape (g : Bool) (txd rxd : Nat) (ins : List In) :
+    Reach txd rxd (run g (St.init txd rxd) ins) :=
+  reach_run txd rxd g ins _ (reach_init txd rxd)
+
+/-- C15, safety part, full strength: after ANY schedule, for ANY delays, the payloads taken by the consumer
+    are exactly the first `rcvd.length` accepted sends - same order, same values, nothing twice, nothing
+    skipped - and at most one accepted send is still under way. -/
+theorem C15.exactly_once (g : Bool) (txd rxd : Nat) (ins : List In) :
+    (run g (St.init txd rxd) ins).rcvd =
+      ((run g (St.init txd rxd) ins).sent.take (run g (St.init txd rxd) ins).rcvd.length).map some ∧
+    (run g (St.init txd rxd) ins).rcvd.length ≤ (run g (St.init txd rxd) ins).sent.length ∧
+    (run g (St.init txd rxd) ins).sent.length ≤ (run g (St.init txd rxd) ins).rcvd.length + 1 :=
+  exactly_once_of_reach txd rxd _ (C15.reachable_shape g txd rxd ins)
+
+/-- a `set()` / `send(v)` issued while the producer observes the flag set has no effect at all: the next
+    state (flag registers, payload register, logs) is the one reached without the attempt -/
+theorem C15.set_while_set_noop (g : Bool) (txd rxd : Nat) (ins : List In) (tp tc w : Bool) (v : Nat)
+    (hp : (run g (St.init txd rxd) ins).f.pSet = true) :
+    step g (run g (St.init txd rxd) ins) ⟨tp, some v, tc, w⟩ =
+      step g (run g (St.init txd rxd) ins) ⟨tp, none, tc, w⟩ :=
+  set_noop_of_reach txd rxd g _ (C15.reachable_shape g txd rxd ins) tp tc w v hp
+
+/-- the same on the registers of the flag alone, in ANY state (reachable or not) -/
+theorem C15.flag_set_while_set_noop (f : Flag) (hne : f.txc ≠ []) (tp tc dc : Bool) (hp : f.pSet = true) :
+    f.step tp true tc dc = f.step tp false tc dc := by
+  have hv : (!f.rx) = hd f.txc := by
+    simp only [Flag.pSet, Flag.setTx] at hp
+    cases h1 : hd f.txc <;> cases h2 : f.rx <;> simp_all
+  have e1 : setHead (!f.rx) f.txc = f.txc := by rw [hv]; exact setHead_same _ hne
+  have e2 : setHead (!f.rx) (shiftTail f.txc) = shiftTail f.txc := by
+    rw [hv, ← hd_shiftTail]; exact setHead_same _ (shiftTail_ne_nil _ hne)
+  cases tp <;> cases tc <;> simp [Flag.step, e1, e2]
+
+/-- while an accepted event has not been taken and acknowledged the producer keeps observing the flag set:
+    whenever the producer observes clear, everything it ever sent has been received -/
+theorem C15.producer_sees_clear_only_after_consumer_cleared (g : Bool) (txd rxd : Nat) (ins : List In)
+    (hp : (run g (St.init txd rxd) ins).f.pSet = false) :
+    (run g (St.init txd rxd) ins).rcvd = (run g (St.init txd rxd) ins).sent.map some :=
+  clear_of_reach txd rxd _ (C15.reachable_shape g txd rxd ins) hp
+
+/-- the consumer observes the flag set only while an accepted event is still unconsumed, and the mailbox then
+    holds the payload of exactly that event -/
+theorem C15.no_re_observation (g : Bool) (txd rxd : Nat) (ins : List In)
+    (hc : (run g (St.init txd rxd) ins).f.cSet = true) :
+    ∃ d, (run g (St.init txd rxd) ins).data = some d ∧
+      (run g (St.init txd rxd) ins).sent = ((run g (St.init txd rxd) ins).rcvd.filterMap id) ++ [d] :=
+  no_reobs_of_reach txd rxd _ (C15.reachable_shape g txd rxd ins) hc
+
+/-- ... and once the consumer has taken the event it does not observe it again: directly after the take the
+    consumer's view is clear, every accepted send is consumed, and the latched payload is the mailbox content -/
+theorem C15.no_re_observation_after_take (g : Bool) (txd rxd : Nat) (ins : List In) (i : In)
+    (ht : takes (run g (St.init txd rxd) ins) i = true) :
+    (step g (run g (St.init txd rxd) ins) i).f.cSet = false ∧
+    (step g (run g (St.init txd rxd) ins) i).rcvd = (step g (run g (St.init txd rxd) ins) i).sent.map some ∧
+    (step g (run g (St.init txd rxd) ins) i).rxData = (run g (St.init txd rxd) ins).data :=
+  after_take_of_reach txd rxd g _ (C15.reachable_shape g txd rxd ins) i ht
+
+/-- C15, liveness part (stated separately): from any reachable state, if the consumer context is activated at
+    least tx_delay + 1 more times and is willing in each of its activations, then every send accepted so far
+    has been received - whatever the producer does and however the activations of the two contexts interleave -/
+theorem C15.exactly_once_liveness (g : Bool) (txd rxd : Nat) (pre ins : List In)
+    (hw : allWilling ins) (ht : txd + 1 ≤ ticksC ins) :
+    (run g (St.init txd rxd) pre).sent.length ≤ (run g (run g (St.init txd rxd) pre) ins).rcvd.length :=
+  live_of_reach txd rxd g _ (C15.reachable_shape g txd rxd pre) ins hw ht
+
+/-- non-vacuity of the liveness hypotheses: tx_delay 1, an accepted send, then two willing consumer activations
+    interleaved with producer-only steps -/
+example : allWilling [⟨true, none, false, false⟩, ⟨false, none, true, true⟩, ⟨true, some 3, true, true⟩] ∧
+    1 + 1 ≤ ticksC [⟨true, none, false, false⟩, ⟨false, none, true, true⟩, ⟨true, some 3, true, true⟩] := by
+  constructor
+  · intro i hi; simp at hi; rcases hi with rfl | rfl | rfl <;> simp
+  · decide
+
+/-- non-vacuity: tx_delay 2, rx_delay 1, consumer three times slower than the producer, an attempt while the
+    flag is set in between: payloads 7 and 9 are accepted, 8 is not, 7 has been received -/
+example :
+    let s := run false (St.init 2 1)
+      [⟨true, some 7, false, true⟩, ⟨true, some 8, false, true⟩, ⟨true, none, true, true⟩,
+       ⟨true, none, true, true⟩, ⟨false, none, true, true⟩, ⟨true, none, true, true⟩,
+       ⟨true, none, false, true⟩, ⟨true, some 9, false, true⟩]
+    s.sent = [7, 9] ∧ s.rcvd = [some 7] ∧ s.f.pSet = true ∧ s.f.cSet = false := by decide
